@@ -124,6 +124,14 @@ let dispatch (op : string) (t : toks) : string =
       out_list (out_option (fun d -> out_int (int_of_n d))) (reg_run [] ops)
   | "setbody" ->
       let (b, h) = set_body (get_bytes t) in out_bytes b ^ " " ^ out_bytes h
+  | "mboxtouch" ->
+      let base = get_bytes t in
+      let op = (match get_int t with 0 -> OpProcessInbound | 1 -> OpGetInboundAnswer
+                | 2 -> OpSetSent | 3 -> OpSetDeferred | _ -> OpAddOut) in
+      let mid = get_bytes t in
+      out_list out_bytes (touched base op mid)
+  | "pathclean" -> out_bytes (path_clean (get_bytes t))
+  | "pathjoin" -> out_bytes (path_join (get_list t get_bytes))
   | _ -> raise Not_found
 
 let () =
